@@ -34,7 +34,11 @@ const Rule = "cases = (LL(1) grammar, iteration-shuffle seed, token strings): ra
 	"between them in every way c10.RandomEdit knows, a second parser made later, a failing parse (lexer, callback) followed by " +
 	"one that does not fail, each judged against the grammar as it is at that moment; size thresholds: 63..1025 (thorough " +
 	"0..4097) tokens, as deep a stack (the parser's and the AST builder's stacks grow in blocks of 1024), 65 and 257 parses by " +
-	"one parser object; two cases out of five under renamed symbols (c10.NameSchemes); non-trivial = conflict-free grammar for which the case parsed a sentence, " +
+	"one parser object; two cases out of five under renamed symbols (c10.NameSchemes); (second hardening round) EVERY " +
+	"number of non-terminals (chain grammar) and of terminals (keyword table) from 1 to 200 (300 with an enlarged budget), the " +
+	"table built and a sentence and a non-sentence parsed; small LL(1) grammars whose 17-23 (35-40) symbols / non-terminals / " +
+	"terminals start at ONE slot of the library's 31-slot (67-slot) hash tables (names found by asking the library's own " +
+	"tables); non-trivial = conflict-free grammar for which the case parsed a sentence, " +
 	"a non-sentence, and a sentence followed by further tokens; distinct = distinct (header, op list)"
 
 func Exec(c hx.Case) hx.Result { return c10.Exec(c) }
@@ -64,6 +68,14 @@ func Ops(r *hx.Rand, g gx.G, k int) []string {
 	}
 	ops = append(ops, "ll1", "unchanged")
 	return ops
+}
+
+func numberedNames(prefix string, n int) []string {
+	out := make([]string, n)
+	for i := range out {
+		out[i] = fmt.Sprintf("%s%04d", prefix, i)
+	}
+	return out
 }
 
 func Main(run *hx.Run) {
@@ -298,6 +310,57 @@ func Main(run *hx.Run) {
 			}
 			ops = append(ops, "with P1 parse ( a )", "unchanged")
 			run.Do("predictive", hx.Case{Header: fmt.Sprintf("comp=predictive mix=sweep dim=parses size=%d eof=%s shuffle=%d", n, eof(i), r.Intn(1<<30)), Ops: ops}, Exec)
+		}
+	}
+	// EVERY number of non-terminals (a chain) and of terminals (a keyword table) from 1 to 200 (more when the budget is
+	// enlarged): the table is built and one sentence and one non-sentence are parsed
+	{
+		lap("before every-size")
+		r := run.R.Fork("every-size")
+		top := 200
+		if run.Huge() {
+			top = 300
+		}
+		for n := 1; n <= top; n++ {
+			for d, g := range []gx.G{c10.TreeGrammar(numberedNames("N", n), []string{"a", "b"}), c10.KeywordGrammar([]string{"S", "A"}, numberedNames("t", n))} {
+				w := "a" // a sentence of the tree grammar with more than one non-terminal
+				if d == 1 {
+					w = g.Terms[len(g.Terms)-1] // S -> t | t A, A -> ε
+				} else if n == 1 {
+					w = ""
+				}
+				ops := append(g.Lines(), strings.TrimRight("parse "+w, " "), "parse "+g.Terms[0]+" "+g.Terms[0]+" "+g.Terms[0],
+					"cell "+g.NonTerms[len(g.NonTerms)-1]+" "+g.Terms[len(g.Terms)-1], "cell "+g.NonTerms[0]+" $", "ll1", "unchanged")
+				c := hx.Case{Header: fmt.Sprintf("comp=predictive mix=every-size dim=%s size=%d eof=%s shuffle=%d", []string{"nonterminals", "terminals"}[d], n, eof(n), r.Intn(1<<30)), Ops: ops}
+				run.Do("predictive", c, Exec)
+			}
+		}
+	}
+	// small LL(1) grammars whose symbols share one probe path of the library's hash tables (c10.SameBucketNames)
+	{
+		lap("before same-bucket")
+		r := run.R.Fork("same-bucket")
+		n := 42
+		if run.Huge() {
+			n = 84
+		}
+		for k := 0; k < n; k++ {
+			g, what := c10.BucketGrammars(k)
+			ops := append(g.Lines(), "table")
+			for _, w := range g.Words(1) {
+				ops = append(ops, strings.TrimRight("parse "+w, " "))
+			}
+			lang := g.LangK(3)
+			cnt := 0
+			for w := range lang {
+				if cnt++; cnt > 12 {
+					break
+				}
+				ops = append(ops, strings.TrimRight("parse "+w, " "), strings.TrimRight("ast "+w, " "), strings.TrimRight("parse "+w+" "+g.Terms[0], " "))
+			}
+			ops = append(ops, "keep parser P1", "with P1 parse "+g.Terms[0], "ll1", "unchanged")
+			c := hx.Case{Header: fmt.Sprintf("comp=predictive mix=same-bucket %s eof=%s shuffle=%d", what, eof(k), r.Intn(1<<30)), Ops: ops}
+			run.Do("predictive", c, Exec)
 		}
 	}
 	// very deep nestings through the real parser
